@@ -1,7 +1,7 @@
 """C04 -- Bits arithmetic is exact unsigned arithmetic modulo 2^n.  (DESIGN.md section 4, C04)"""
 import ast
 
-from sa.astutil import (norm, guards_of, reaching_value, walk_no_nested, always_exits, parent,
+from sa.astutil import (inline_locals, norm, guards_of, reaching_value, walk_no_nested, always_exits, parent,
                         enclosing, stmt_of, preceding_stmts)
 from sa.bitsdom import BitsDom, Cannot, width_term, mask_width, self_name
 from sa.errors import AnalysisError
@@ -497,7 +497,8 @@ def rule_optable(repo):
     # hash covers width and value
     f = meths.get('__hash__')
     if f is not None:
-        txt = norm(f.body[-1])
+        last = f.body[-1]
+        txt = norm(inline_locals(last.value, last)) if isinstance(last, ast.Return) and last.value is not None else norm(last)
         if '_nbits' in txt and '_uint' in txt and 'hash' in txt:
             r.ok(m, 'Bits.__hash__', txt, nontrivial=False)
         else:
@@ -863,6 +864,7 @@ MUTANTS = [
 ]
 
 EQUIV = [
+    _m('hash-key-local', "    return hash((self._nbits, self._uint))", "    key = (self._nbits, self._uint)\n    return hash(key)"),
     _m('guard-as-not-chain', r"""      up = _upper[ nbits ]
       if other < 0 or other > up:
         raise ValueError( f"Integer {hex(other)} is not a valid binop operand with Bits{nbits}!\n"
